@@ -238,11 +238,23 @@ def main(argv):
             for _ in range(60 if thorough else 12):
                 lines.append(("s%d" % n, "S", "S", "S %d %d %d" % (itv, 3 * max(itv, 1) + 2, chk.rng.below(1 << 40))))
                 n += 1
-        # 5. reflection-managed protobuf message under the manager against a heap message
+        # 5. protobuf message managed both ways (typed and base-registered through reflection) against a heap message;
+        #    vary=1 alternates heavy and light workloads so that fields used in one cycle are untouched in the next
         for itv in [1, 2, 3, 5]:
-            for _ in range(40 if thorough else 10):
-                lines.append(("p%d" % n, "P", "P", "P %d %d %d" % (itv, 3 * itv + 3, chk.rng.below(1 << 40))))
+            for j in range(48 if thorough else 12):
+                lines.append(("p%d" % n, "P", "P", "P %d %d %d %d" % (itv, 3 * itv + 3, chk.rng.below(1 << 40), j % 2)))
                 n += 1
+        # 6. arguments that alias an element of the vector operated on (std::vector is required to cope): monitor only
+        for ty in ["i", "s"]:
+            for k in range(1, 6):
+                pre = "a.asr." + ",".join(str(10 + j) for j in range(k))
+                al = ["a.pba.%d" % i for i in range(k)]
+                al += ["a.insa.%d.%d" % (pos, i) for pos in range(k + 1) for i in range(k)]
+                al += ["a.insna.%d.%d.%d" % (pos, c, i) for pos in range(k + 1) for c in (1, 2) for i in range(k)]
+                for t in al:
+                    for extra in ([], ["a.res.%d" % (2 * k + 4)]):
+                        lines.append(("a%d" % n, ty, "A", "A %s %s" % (ty, " ".join([pre] + extra + [t, "a.pb.5"]))))
+                        n += 1
     chk.log("%d cases" % len(lines))
     text = {i: t for i, _, _, t in lines}
     impl_out, model_out = {}, {}
@@ -251,7 +263,7 @@ def main(argv):
     if impl_pb:
         impl_out.update(chk.run_cases(impl_pb, ["%s %s" % (i, t) for i, _, m, t in lines if m == "P"], timeout=900))
     if model:
-        model_out = chk.run_cases(model, ["%s %s" % (i, t) for i, _, m, t in lines if m not in ("S", "P")], timeout=900)
+        model_out = chk.run_cases(model, ["%s %s" % (i, t) for i, _, m, t in lines if m not in ("S", "P", "A")], timeout=900)
 
     SIGS_V = [("cap_mono", "capacity-shrunk", "capacity of a vector decreased"),
               ("clear_keep", "clear-lost-capacity", "clear() changed capacity / constructed_size / buffer or left elements"),
@@ -281,15 +293,18 @@ def main(argv):
                 chk.violate("impl-crash", "managed protobuf message crashed on: %s (%s)" % (t, il[:200]), rep)
             elif il is not None:
                 mon = dict(kv.split("=") for kv in il.split(" | ")[1].split())
-                if mon.get("fresh") != "1":
-                    chk.violate("message-clear-not-fresh", "after manager.clear() (logical clear or rebuild) the managed protobuf "
-                                "message is not equal to a fresh one (has-bits / ByteSizeLong / serialisation): " + t, rep)
-                for key, sig, what in [("same", "message-differs-from-heap", "arena message differs from a heap message driven by the same setters"),
-                                       ("acc_ok", "accessor-invalid", "accessor does not point into the manager's resource after clear"),
-                                       ("on_arena", "message-not-on-arena", "managed message is not on the manager's arena"),
-                                       ("no_growth", "converged-workload-allocates", "space_used of the resource grows from period to period for a repeated message workload")]:
-                    if mon.get(key) != "1":
-                        chk.violate(sig, "%s: %s" % (what, t), rep)
+                for sfx, how in (("_t", "typed create_object<ArenaExample>()"),
+                                 ("_b", "base-registered create_object<google::protobuf::Message>(creator)")):
+                    if mon.get("fresh" + sfx) != "1":
+                        chk.violate("message-clear-not-fresh", "after manager.clear() (logical clear or rebuild) a protobuf message "
+                                    "managed through %s is not equal to a fresh one (has-bits / ByteSizeLong / serialisation / "
+                                    "DebugString): %s ; %s" % (how, t, il.split(" | ")[0][-160:]), dict(rep, path=how))
+                    for key, sig, what in [("same", "message-differs-from-heap", "arena message differs from a heap message driven by the same setters"),
+                                           ("acc_ok", "accessor-invalid", "accessor does not point into the manager's resource after clear"),
+                                           ("on_arena", "message-not-on-arena", "managed message is not on the manager's arena"),
+                                           ("no_growth", "converged-workload-allocates", "space_used of the resource grows from period to period for a repeated message workload")]:
+                        if mon.get(key + sfx) != "1":
+                            chk.violate(sig, "%s (%s): %s" % (what, how, t), rep)
             continue
         if impl and il is None:
             chk.broke("harness", "no output for case " + i, t)
@@ -300,16 +315,19 @@ def main(argv):
         if il is not None:
             mon = dict(kv.split("=") for kv in il.split(" | ")[1].split())
             if mon.get("std_eq") != "1":
-                toks = t.split()[2:] if mode == "V" else t.split()[4:]
+                toks = t.split()[2:] if mode in ("V", "A") else t.split()[4:]
                 fb = int(mon.get("first_bad", "-1"))
                 tok = toks[fb] if 0 <= fb < len(toks) else "?"
                 if mode == "S":
                     chk.violate("string-differs-from-std", "managed SwissString differs from std::string: " + t, rep)
+                elif mode == "A":
+                    chk.violate("aliased-argument", "an argument that refers to an element of the vector itself (%s) gives contents "
+                                "different from std::vector: %s ; %s" % (tok, t, il.split(" ; ")[0][-120:]), rep)
                 else:
                     chk.violate("contents-differ-from-std", "contents of a vector of %s elements differ from std::vector after "
                                 "op #%d (%s) of: %s" % ({"b": "std::basic_string", "i": "int", "c": "counting", "s": "SwissString",
                                                          "n": "nested vector"}.get(ty, ty), fb, tok, t), rep)
-            for key, sig, what in (SIGS_V if mode == "V" else SIGS_M if mode == "M" else SIGS_M[:3] + SIGS_M[4:6]):
+            for key, sig, what in (SIGS_V if mode in ("V", "A") else SIGS_M if mode == "M" else SIGS_M[:3] + SIGS_M[4:6]):
                 if key in mon and mon[key] != "1":
                     chk.violate(sig, "%s: %s" % (what, t), rep)
         if ml is not None:
